@@ -25,7 +25,8 @@ Outstanding(o) == {q \in DOMAIN o.rq : o.rq[q].st = "out"}
 
 ObsSubmit(o, e) ==
   [o EXCEPT !.rq = Put(@, e.q, [r |-> e.r, tok |-> "", mid |-> -1, con |-> e.con, st |-> "out",
-                                granted |-> FALSE, acked |-> FALSE, mustend |-> o.shut, observe |-> e.obs = 0])]
+                                granted |-> FALSE, acked |-> FALSE, mustend |-> o.shut, observe |-> e.obs = 0,
+                                erred |-> FALSE])]
 
 ObsTx(o, e) ==
   IF o.win.kind # "none" /\ e.r = o.win.r /\ e.mid = o.win.mid /\ e.ty \in {"ACK", "RST"}
@@ -40,7 +41,11 @@ ObsRx(o, e) ==
   LET live == e.q # 0 /\ Has(o.rq, e.q) /\ o.rq[e.q].st = "out"
       W(kind) == [NoWin EXCEPT !.kind = kind, !.r = e.r, !.mid = e.mid]
   IN IF e.cls = "resp" /\ e.ty \in {"CON", "NON", "ACK"}
-       THEN IF live
+       THEN IF live /\ o.rq[e.q].erred
+              THEN \* a transport error was reported for the endpoint and the request is being failed: whether
+                   \* its token counts as retired already is the implementation's business (not judged)
+                   [o EXCEPT !.rq[e.q].granted = TRUE, !.win = W("free")]
+            ELSE IF live
               THEN \* the first matching response retires the token at once ("ans": answered, completion pending)
                    [o EXCEPT !.rq[e.q].granted = TRUE, !.rq[e.q].st = "ans",
                              !.win = W(IF e.ty = "CON" THEN "ackit" ELSE "quiet")]
@@ -71,7 +76,8 @@ ObsDone(o, e) ==
        IN [o3 EXCEPT !.rq[e.q].st = "done"]
 
 ObsErr(o, e) ==
-  [o EXCEPT !.rq = [q \in DOMAIN @ |-> IF @[q].r = e.r /\ @[q].st = "out" THEN [@[q] EXCEPT !.mustend = TRUE] ELSE @[q]]]
+  [o EXCEPT !.rq = [q \in DOMAIN @ |-> IF @[q].r = e.r /\ @[q].st = "out"
+                                         THEN [@[q] EXCEPT !.mustend = TRUE, !.erred = TRUE] ELSE @[q]]]
 
 ObsShutdown(o, e) ==
   [o EXCEPT !.shut = TRUE,
